@@ -50,6 +50,25 @@ def generate(rng, tier):
         for b in SPECIAL:
             cases.append({"ints": [1] + lp(bytes([a, b, a])), "tag": "pair"})
     cases.append({"ints": [1] + lp(bytes(rng.randrange(256) for _ in range(2000))), "tag": "long"})
+    # long event names / field names / values inside whole records: any size-dependent treatment (caps, chunking,
+    # buffers) must not change what decodes back; sizes straddle powers of two, with an escape or a multi-byte
+    # character sitting exactly on the boundary
+    for L in [255, 256, 257, 511, 512, 513, 1023, 1024, 1025, 2047, 2048, 2049, 4095, 4096, 4097, 8192, 65536]:
+        for tail in [b"a", b'"', b"\\", b"\n", "€".encode(), "😀".encode()]:
+            if tier == "quick" and L > 4097 and tail != b'"':
+                continue
+            body = bytes(rng.choice(b"abcdefghij") for _ in range(L - 1)) + tail
+            slot = rng.randrange(3)
+            ev, k, v = b"event", b"key", b"value"
+            if slot == 0:
+                v = body
+            elif slot == 1:
+                k = body
+            else:
+                ev = body
+            cases.append({"ints": [2, rng.randrange(3)] + lp(ev) + [2] + lp(b"a") + lp(b"b") + lp(k) + lp(v), "tag": "long-record"})
+        q = bytes([0x22]) * (L // 2 + 1)          # escaped length is twice the raw length
+        cases.append({"ints": [2, 1] + lp(b"e") + [1] + lp(b"k") + lp(q), "tag": "long-record"})
     for i in range(n):
         if i % 3 == 0:
             cases.append({"ints": [1] + lp(rand_str(rng, 200)), "tag": "escape"})
